@@ -15,8 +15,26 @@ trap cleanup EXIT
 DEMO_PATH=$(python3 -c "import json;print(json.load(open('$SRC/meta.json'))['demo_path'])")
 DEMO_FILE=$(ls "$SRC"/*_test.go 2>/dev/null | head -1)
 [ -z "$DEMO_FILE" ] && DEMO_FILE=$(ls "$SRC"/*.go 2>/dev/null | head -1)
+DEMO_DIR=""
+if [ -z "$DEMO_FILE" ]; then
+  # a demonstration made of several files: a sub-directory holding the test package
+  DEMO_DIR=$(find "$SRC" -mindepth 1 -maxdepth 1 -type d | head -1)
+  [ -n "$DEMO_DIR" ] && DEMO_FILE=$(ls "$DEMO_DIR"/*_test.go 2>/dev/null | head -1)
+fi
 if [ -z "$DEMO_FILE" ]; then echo "no demo file in $SRC"; exit 2; fi
+if [ -n "$DEMO_DIR" ]; then
+  # demo_path names the files or the directory; the package directory is x/<name of the sub-directory> unless demo_path says otherwise
+  PKGDIR=$(python3 - "$DEMO_PATH" "$(basename "$DEMO_DIR")" <<'PY'
+import re,sys
+p,d=sys.argv[1],sys.argv[2]
+m=re.search(r'([\w./-]*'+re.escape(d)+r')', p)
+print(m.group(1).rstrip('/') if m else 'x/'+d)
+PY
+)
+  TARGET="$WT/$PKGDIR/$(basename "$DEMO_FILE")"
+else
 case "$DEMO_PATH" in *.go) TARGET="$WT/$DEMO_PATH";; *) TARGET="$WT/$DEMO_PATH/$(basename "$DEMO_FILE")";; esac
+fi
 mkdir -p "$(dirname "$TARGET")"
 PKG="./$(dirname "${TARGET#$WT/}")"
 cd "$WT"
@@ -25,7 +43,7 @@ git apply --whitespace=nowarn "$SRC/patch.diff" || { echo "patch does not apply"
 go build ./... || { echo "RESULT $NAME: does not build"; exit 1; }
 SUITE=$(go test -vet=off -count=1 ./... 2>&1 | grep -v "no test files" | grep -cv "^ok")
 # 2. demo with the patch
-cp "$DEMO_FILE" "$TARGET"
+if [ -n "$DEMO_DIR" ]; then cp "$DEMO_DIR"/*.go "$(dirname "$TARGET")"/; else cp "$DEMO_FILE" "$TARGET"; fi
 go test -vet=off -count=1 "$PKG" > /tmp/vseed_$NAME.with.log 2>&1; WITH=$?
 # 3. demo without the patch
 git apply -R --whitespace=nowarn "$SRC/patch.diff"
@@ -35,7 +53,7 @@ if [ "$SUITE" = "0" ] && [ "$WITH" != "0" ] && [ "$WITHOUT" = "0" ]; then
   D=/verif/seeded/$NAME
   mkdir -p "$D"
   cp "$SRC/patch.diff" "$D/patch.diff"
-  cp "$DEMO_FILE" "$D/$(basename "$DEMO_FILE").txt"
+  if [ -n "$DEMO_DIR" ]; then for g in "$DEMO_DIR"/*.go; do cp "$g" "$D/$(basename "$g").txt"; done; else cp "$DEMO_FILE" "$D/$(basename "$DEMO_FILE").txt"; fi
   python3 - "$SRC/meta.json" "$D/meta.json" "$DEMO_PATH" "$(basename "$DEMO_FILE")" <<'EOF'
 import json,sys
 m=json.load(open(sys.argv[1]))
